@@ -156,10 +156,11 @@ func (h *Handler) Handle(down *layer4.Connection, _ layer4.Handler) error {
 
 	var upConns []net.Conn
 	var proxyErr error
+	var upstream *Upstream
 
 	for {
 		// choose an available upstream
-		upstream := h.LoadBalancing.SelectionPolicy.Select(h.Upstreams, down)
+		upstream = h.LoadBalancing.SelectionPolicy.Select(h.Upstreams, down)
 		if upstream == nil {
 			if proxyErr == nil {
 				proxyErr = fmt.Errorf("no upstreams available")
@@ -183,10 +184,20 @@ func (h *Handler) Handle(down *layer4.Connection, _ layer4.Handler) error {
 		break
 	}
 
+	// count the connection on every peer while it is proxied; max_connections
+	// and unhealthy_connection_count (Upstream.full) and the least_conn policy
+	// rely on these counters, which nothing maintained
+	for _, p := range upstream.peers {
+		_ = p.countConn(1)
+	}
+
 	// make sure upstream connections all get closed
 	defer func() {
 		for _, conn := range upConns {
 			_ = conn.Close()
+		}
+		for _, p := range upstream.peers {
+			_ = p.countConn(-1)
 		}
 	}()
 
